@@ -5,6 +5,7 @@ only zlib is shared with psd-tools), canonical views of PIL / NumPy exports, sma
 from __future__ import annotations
 
 import io
+import os
 import struct
 import warnings
 import zlib
@@ -264,3 +265,80 @@ def comp_enum(i):
     from psd_tools.constants import Compression
 
     return [Compression.RAW, Compression.RLE, Compression.ZIP, Compression.ZIP_WITH_PREDICTION][i]
+
+
+# ----------------------------------------------------------------------------- which corrections are in the tree
+def finding_status():
+    """id -> status over known_findings/C07.json and C17.json (the committed record of which
+    defects of the plane plumbing are open and which were repaired by a fix: commit)"""
+    import json
+    import os
+
+    from . import core
+
+    st = {}
+    for pid in ("C07", "C17"):
+        p = os.path.join(core.VERIF, "known_findings", pid + ".json")
+        if os.path.exists(p):
+            for f in json.load(open(p))["findings"]:
+                st[f["id"]] = f.get("status", "open")
+    # validation of a proposed patch on a scratch tree (VERIF_REPO=...): ids named here are treated
+    # as repaired for this run only - the fixed model variant is compared and their classifiers are off
+    for fid in os.environ.get("VERIF_ASSUME_FIXED", "").replace(",", " ").split():
+        st[fid] = "assumed-fixed"
+    return st
+
+
+def drop_assumed_fixed(ck, st):
+    ck.known = [f for f in ck.known if st.get(f["id"]) == "open"]
+    if os.environ.get("VERIF_ASSUME_FIXED"):
+        ck.notes.append("VERIF_ASSUME_FIXED=%s: these findings are treated as repaired in this run" % os.environ["VERIF_ASSUME_FIXED"])
+
+
+def is_open(st, fid):
+    return st.get(fid) == "open"
+
+
+def cfg_bits(st):
+    """Pixels/Corr.v cfg_of_bits: bit0 fx_cmyk, bit1 fx_alpha, bit2 fx_matte, bit3 fx_bitmap, bit4 fx_save.
+    A correction counts as present unless its finding is listed as open."""
+    b = 0
+    if not is_open(st, "F-C07-1"):
+        b |= 1
+    if not is_open(st, "F-C07-2"):
+        b |= 2
+    if not is_open(st, "F-C07-4"):
+        b |= 4
+    if not is_open(st, "F-C07-5"):
+        b |= 8
+    if not any(is_open(st, k) for k in ("F-C17-1", "F-C17-2", "F-C17-3", "F-C17-4")):
+        b |= 16
+    return b
+
+
+def coq_bool(b):
+    return "true" if b else "false"
+
+
+def planes_lit(ps):
+    from .core import zlistlist
+
+    return zlistlist(ps)
+
+
+def canon_planes(ps):
+    out = [len(ps)]
+    for p in ps:
+        out.append(len(p))
+        out.extend(p)
+    return out
+
+
+def canon_raster(mode, w, h, planes):
+    return [MODE_CODE[mode], w, h] + canon_planes(planes)
+
+
+def dg(l):
+    from .core import h63_list
+
+    return h63_list(0, l)
